@@ -15,6 +15,7 @@ import (
 // Oblig is one proof obligation: under the function's assumptions, reach => cond.
 type Oblig struct {
 	Fn      string
+	shortMs int // own (shorter) solver limit: not discharged on the pinned tree, not claimed
 	Family  string // SAFE FRAME POST INV PRE LOOP COPY NONDET TERM
 	Kind    string
 	Text    string
@@ -74,6 +75,7 @@ type retInfo struct {
 
 type Frame struct {
 	fn    *ssa.Function
+	ghostDone map[int]bool
 	pfx   string
 	vals  map[ssa.Value]string
 	tup   map[ssa.Value][]string
@@ -128,6 +130,7 @@ type Enc struct {
 	oldTerms   map[string]bool
 	allocTerms map[string]bool
 	selMemo    map[interface{}]string
+	undo       []func()
 	a0         string
 	n          int
 	cur        string // current reach guard
@@ -270,6 +273,7 @@ func (e *Enc) strConst(s string) string {
 	e.d.decl(n, "() Str")
 	e.assume(fmt.Sprintf("(= (strlen %s) %d)", n, len(s)))
 	e.strConsts[s] = n
+	e.undo = append(e.undo, func() { delete(e.strConsts, s) })
 	return n
 }
 
@@ -314,6 +318,7 @@ func (e *Enc) globalRef(g *ssa.Global) string {
 	n := "g_" + san(g.Pkg.Pkg.Name()+"."+g.Name())
 	if !e.globals[n] {
 		e.globals[n] = true
+		e.undo = append(e.undo, func() { delete(e.globals, n) })
 		e.d.decl(n, "() Int")
 		e.assume(fmt.Sprintf("(and (> %s 0) (< %s A0))", n, n))
 		e.oldTerms[n] = true
@@ -325,6 +330,7 @@ func (e *Enc) funcRef(f *ssa.Function) string {
 	n := "fn_" + san(shortName(f))
 	if !e.globals[n] {
 		e.globals[n] = true
+		e.undo = append(e.undo, func() { delete(e.globals, n) })
 		e.d.decl(n, "() Int")
 		e.assume(fmt.Sprintf("(and (> %s 0) (< %s A0))", n, n))
 		e.oldTerms[n] = true
@@ -826,8 +832,11 @@ func (e *Enc) encodeBody(fr *Frame, st0 *State, callReach string) {
 				continue
 			}
 			st = e.instr(fr, st, in)
+			if _, isCall := in.(*ssa.Call); isCall {
+				e.siteGhosts(fr, b, st, in)
+			}
 		}
-		e.siteGhosts(fr, b, st)
+		e.siteGhosts(fr, b, st, nil)
 		fr.out[b] = st
 		fr.reach[b] = e.cur // an inlined call that does not return ends the block early
 		// back edges: loop invariants must be re-established
